@@ -475,6 +475,10 @@ class V1Translator(tf.FuncTranslator):
         return None
 
     def compare1(self, op, ln, rn, env, node):
+        if isinstance(op, (ast.In, ast.NotIn)) and isinstance(rn, ast.Tuple) and rn.elts \
+                and all(isinstance(e, ast.Constant) for e in rn.elts):
+            # `x in (lit, lit, …)`: membership in a tuple of literals is membership in the list of them
+            rn = ast.copy_location(ast.List(elts=list(rn.elts), ctx=ast.Load()), rn)
         if isinstance(op, (ast.In, ast.NotIn)):
             saved = self.counter
             b, tb = self.expr(rn, env)
@@ -899,8 +903,12 @@ class V1Translator(tf.FuncTranslator):
     def try_stmt(self, st, rest, env, k):
         def kr(e):
             return self.block(rest, e, k)
-        if st.orelse or st.finalbody or len(st.handlers) != 1:
-            self.bad(st, "only `try: ... except X [as e]: ...` with one handler")
+        if st.finalbody or len(st.handlers) != 1:
+            self.bad(st, "only `try: ... except X [as e]: ... [else: ...]` with one handler")
+        if st.orelse:
+            # the `else` block runs after a body that did not raise, OUTSIDE the handler's protection:
+            # it is the beginning of the continuation of the `.ok` arm (form A below)
+            rest = list(st.orelse) + list(rest)
         if not self.monadic:
             self.bad(st, "try/except in a function translated as pure")
         h = st.handlers[0]
@@ -933,7 +941,7 @@ class V1Translator(tf.FuncTranslator):
             return ("(match %s with\n  | Except.error %s.%s => %s\n  | Except.error e_ => (Except.error e_)\n  | Except.ok %s => %s)"
                     % (e, self.errt, ctor, _arm(handler), ln, _arm(kr(env2))))
         # form R: the body always returns / raises
-        if self.always_exits(body):
+        if self.always_exits(body) and not st.orelse:
             b = self.block(body, env, lambda e: self.bad(st, "unreachable"))
             handler = self.block(list(h.body), henv, kr)
             return ("(match (%s : Except %s %s) with\n  | Except.error %s.%s => %s\n  | r_ => r_)"
@@ -1036,6 +1044,29 @@ class V1Translator(tf.FuncTranslator):
         if (isinstance(last, ast.If) and not last.orelse and len(last.body) == 1
                 and isinstance(last.body[0], ast.Return) and isinstance(st.target, ast.Name)):
             return tf.FuncTranslator.for_stmt(self, st, rest, env, k)       # the searching idiom
+        # the FLAG idiom: `flag = <bool>` before; `for x in xs: if c: flag = True|False; break`
+        #   -> flag := flag || any(c)   resp.   flag && !any(c)      (the search stops at the first hit, c is pure)
+        if len(body) == 1 and isinstance(last, ast.If) and not last.orelse:
+            ib = [s for s in last.body if not self.is_dropped(s)]
+            if (len(ib) == 2 and isinstance(ib[1], ast.Break) and isinstance(ib[0], ast.Assign)
+                    and len(ib[0].targets) == 1 and isinstance(ib[0].targets[0], ast.Name)
+                    and isinstance(ib[0].value, ast.Constant) and isinstance(ib[0].value.value, bool)
+                    and ib[0].targets[0].id in env and env[ib[0].targets[0].id].type == BOOL):
+                flag = ib[0].targets[0].id
+                saved_h, self.hoists = self.hoists, None          # the test must be pure
+                try:
+                    c = self.cond(last.test, env_in, lambda _: "true", lambda _: "false", as_bool=True)
+                finally:
+                    self.hoists = saved_h
+                anyx = "(List.any %s (fun %s => %s))" % (xs, x, c)
+                if ib[0].value.value:
+                    val = "(%s || %s)" % (env[flag].lean, anyx)
+                else:
+                    val = "(%s && !%s)" % (env[flag].lean, anyx)
+                env2 = dict(env)
+                ln = lean_ident(flag)
+                env2[flag] = Var(ln, BOOL)
+                return "let %s := %s;\n%s" % (ln, val, self.block(rest, env2, k))
         if self.contains_exit(body, allow_continue=True):
             self.bad(st, "a loop body with return/raise/break")
 
